@@ -454,12 +454,16 @@ class ExecutionCounters:
         Matches TypeScript shouldContinue() logic.
         """
         with self._lock:
-            # If no completion config, only continue if no failures
+            # If no failure tolerance is configured, continue while the required number of
+            # successes can still be reached. Without min_successful every task is required,
+            # so the first failure stops; with min_successful (e.g. first_successful()) a
+            # failure alone does not, as there is "no limit on failure count".
             if (
                 self.tolerated_failure_count is None
                 and self.tolerated_failure_percentage is None
             ):
-                return self.failure_count == 0
+                remaining = self.total_tasks - self.success_count - self.failure_count
+                return self.success_count + remaining >= self.min_successful
 
             # Check failure count tolerance
             if (
